@@ -59,6 +59,12 @@ ASSUMPTIONS = [
     "this can come out as ~1e-12 ms, a delay below the float resolution of the virtual clock, and the delay then "
     "spins forever at one instant (an artefact of virtual time, unrelated to this property); the prolonged "
     "'tilted until settled' phase is therefore only exercised through tilts whose balls are never collected",
+    "'the machine tilts' is decided by the workload itself: a hit of the tilt or slam-tilt SWITCH while a ball is "
+    "live, the game is neither tilted nor ending, the tilt mode is running and no machine reset is in progress "
+    "(plus, as before, any `tilt` event mpf posts during a live ball); the same switch hit between ball_will_start "
+    "and ball_started (a harness handler may hold ball_starting for 0.25-1 s) tilts the ball that is starting: it "
+    "may start but must have ended again at the next later instant; tilts through accumulated warnings are only "
+    "judged via mpf's own `tilt` event",
     "tilt in the fake game: the harness may zero the playfield ball counts just before the tilt (there is no drain "
     "device that could collect balls afterwards)",
 ]
@@ -129,7 +135,9 @@ def _gen_cfg(rng, tier):
             "tilt": {"warnings": rng.choice([1, 2, 3]), "settle_ms": rng.choice([0, 500, 3000])},
             "wait_empty": rng.random() < 0.25,
             # some handler (a game mode that takes time to stop) holds the game's stopping queue for a while
-            "stop_hold_ms": rng.choice([0, 0, 0, 200, 1000, 3000])}
+            "stop_hold_ms": rng.choice([0, 0, 0, 200, 1000, 3000]),
+            # some handler (ball intro show, skill select) holds every ball_starting queue for a while
+            "start_hold_ms": rng.choice([0, 0, 0, 250, 1000])}
 
 
 def _gen_ops(rng, tier, cfg):
@@ -137,6 +145,9 @@ def _gen_ops(rng, tier, cfg):
     n = rng.randint(25, 70 if tier == "quick" else 160)
     ops = []
     in_game_bias = 0
+    if rng.random() < 0.25:
+        # a service-mode cycle before the first game (stops and restarts every mode, the tilt mode included)
+        ops += [["svc_in"], ["adv", rng.choice([0.125, 1.0])], ["svc_out"], ["adv", 1.0]]
     if rng.random() < 0.7:
         ops += [["start"], ["adv", rng.choice([0.125, 1.0])]]
         in_game_bias = 6
@@ -523,7 +534,7 @@ def _run(case, mon):
     obs = {"rule_sets": 0, "rule_clears": 0, "clears_of_absent_rule": 0, "driver_commands": 0, "games_started": 0,
            "balls_started": 0, "balls_ended": 0, "tilts": 0, "service_entries": 0, "ball_searches": 0,
            "timeout_trips": 0, "sw_repulses": 0, "enable_requests": 0, "disable_requests": 0, "sw_flips": 0,
-           "off_instants": 0, "handovers": 0, "ball_started_with_stale_tilted_flag": 0, "ball_started_after_game_stop": 0, "game_started_in_service_mode": 0, "off_with_prior_enable": 0, "iteration_checks": 0, "requests_on_same_instant": 0}
+           "off_instants": 0, "model_tilts": 0, "model_tilts_while_ball_starting": 0, "handovers": 0, "ball_started_with_stale_tilted_flag": 0, "ball_started_after_game_stop": 0, "game_started_in_service_mode": 0, "off_with_prior_enable": 0, "iteration_checks": 0, "requests_on_same_instant": 0}
     viol = []
     seen_sigs = set()
     shape = []
@@ -565,7 +576,7 @@ def _run(case, mon):
             for k in d["hwkeys"]:
                 key_owner.setdefault(k, d)
                 n_owners[k] = n_owners.get(k, 0) + 1
-        st = {"dirty_t": vm.now(), "ball_live": False, "pending_check": False, "tilt_seen": False, "svc_exit": None,
+        st = {"dirty_t": vm.now(), "ball_live": False, "pending_check": False, "tilt_seen": False, "tilt_carry": False, "ball_starting": False, "svc_exit": None,
               "game_started_in_service": False}
 
         def touch():
@@ -588,7 +599,7 @@ def _run(case, mon):
             return None
 
         # ---- spy on control / lifecycle events (after the devices' own handlers) ---------------
-        spy_events = {"ball_started", "ball_will_end", "service_mode_entered", "tilt", "mode_game_started",
+        spy_events = {"ball_started", "ball_will_end", "service_mode_entered", "tilt", "ball_will_start", "mode_game_started",
                       "mode_game_stopping", "mode_game_stopped"}
         for d in devs:
             spy_events |= d["en_ev"] | d["dis_ev"]
@@ -611,7 +622,12 @@ def _run(case, mon):
                         late = "C10:ball_started_after_game_stop"
                         obs["ball_started_after_game_stop"] += 1
                     st["ball_live"] = True
-                    st["tilt_seen"] = False
+                    st["ball_starting"] = False
+                    if st["tilt_carry"]:
+                        # the machine was tilted while this ball was starting: it has to end at once
+                        st["tilt_carry"] = False
+                    else:
+                        st["tilt_seen"] = False
                     obs["balls_started"] += 1
                     if m.game is not None and m.game.tilted:
                         obs["ball_started_with_stale_tilted_flag"] += 1
@@ -622,6 +638,12 @@ def _run(case, mon):
                     # a game killed by service mode posts no ball_will_end; a new game has no live ball yet
                     st["ball_live"] = False
                     st["tilt_seen"] = False
+                    st["tilt_carry"] = False
+                    st["ball_starting"] = False
+                elif ev == "ball_will_start":
+                    # dispatched after Game._run_ball() cleared its end-ball flag: from here to ball_started an
+                    # end_ball request (tilt) survives and ends the ball right after it has started
+                    st["ball_starting"] = True
                 elif ev == "ball_will_end":
                     st["ball_live"] = False
                     obs["balls_ended"] += 1
@@ -841,6 +863,20 @@ def _run(case, mon):
         flips = [d for d in devs if d["kind"] == "flipper"]
         autos = [d for d in devs if d["kind"] != "flipper" and d["twin_of"] is None]
 
+        def tilt_certain():
+            """A hit of the tilt / slam-tilt switch NOW must tilt the machine (only then the model says so)."""
+            g = m.game
+            gm = m.modes["game"]
+            if g is None or g.tilted or g.slam_tilted or g.ending or not tilt_mode.active or tilt_mode.stopping or \
+                    not gm.active or gm.stopping or m.service.is_in_service() or \
+                    not (st["svc_exit"] is None or st["svc_exit"].done()):
+                return None
+            if st["ball_live"] and off_reason() is None:
+                return "live"
+            if st["ball_starting"] and not st["ball_live"]:
+                return "start"
+            return None
+
         def run_op(op):
             kind = op[0]
             if kind == "adv":
@@ -973,6 +1009,14 @@ def _run(case, mon):
                     pf.balls = 0
                     pf.available_balls = 0
                 obs["tilts"] += 1
+                certain = tilt_certain() if op[1] in ("tilt", "slam") else None
+                if certain:
+                    # decided from the workload's own switch hit, not from mpf's `tilt` event
+                    st["tilt_seen"] = True
+                    obs["model_tilts"] += 1
+                    if certain == "start":
+                        st["tilt_carry"] = True
+                        obs["model_tilts_while_ball_starting"] += 1
                 if op[1] == "tilt":
                     set_switch("s_tilt", 1)
                     set_switch("s_tilt", 0)
@@ -1022,6 +1066,16 @@ def _run(case, mon):
                 queue.wait()
                 m.delay.add(ms=hold_ms, callback=queue.clear)
             m.events.add_handler("mode_game_stopping", hold_stop, priority=5)
+
+        start_hold_ms = cfg.get("start_hold_ms", 0)
+        if start_hold_ms:
+            def hold_start(queue, **kwargs):
+                queue.wait()
+                m.delay.add(ms=start_hold_ms, callback=queue.clear)
+            # lowest priority: mpf's own ball_starting handlers (mode controller) have run before the hold begins;
+            # resumed after a hold during which the game was stopped they crash (machine.game is None), which is
+            # not this property's business
+            m.events.add_handler("ball_starting", hold_start, priority=-100000)
 
         def game_start_spy(**kwargs):
             st["game_started_in_service"] = bool(m.service.is_in_service())
